@@ -9,6 +9,17 @@ from .core import AnalysisError
 PKG = ("src", "hydrodiy")
 
 
+def _const_value(v):
+    if isinstance(v, ast.Constant) and isinstance(v.value, str):
+        return True
+    if isinstance(v, (ast.List, ast.Tuple)) and v.elts and all(isinstance(x, ast.Constant) and isinstance(x.value, str) for x in v.elts):
+        return True
+    if isinstance(v, ast.Call) and isinstance(v.func, ast.Attribute) and isinstance(v.func.value, ast.Name) and v.func.value.id == "re" \
+            and v.func.attr == "compile" and len(v.args) == 1 and not v.keywords and isinstance(v.args[0], ast.Constant):
+        return True
+    return False
+
+
 class Mod:
     def __init__(self, repo, rel, normalise=True):
         self.rel = rel
@@ -33,6 +44,25 @@ class Mod:
         self.imports = {}    # local alias -> dotted target
         for n in self.tree.body:
             self._top(n)
+        # module-level names bound once to a string, a list / tuple of strings or a compiled regular expression: functions see them
+        # as their value (pq.PEval.run), so hoisting a literal into a named constant does not change what a rule reads
+        self.consts = {}
+        seen = {}
+        for n in ast.walk(self.tree):
+            if isinstance(n, (ast.Assign, ast.AugAssign, ast.AnnAssign)):
+                for t in (n.targets if isinstance(n, ast.Assign) else [n.target]):
+                    for x in ast.walk(t):
+                        if isinstance(x, ast.Name):
+                            seen[x.id] = seen.get(x.id, 0) + 1
+            elif isinstance(n, ast.Global):
+                for nm in n.names:
+                    seen[nm] = seen.get(nm, 0) + 2
+        for n in self.tree.body:
+            if isinstance(n, ast.Assign) and len(n.targets) == 1 and isinstance(n.targets[0], ast.Name) and seen.get(n.targets[0].id) == 1 \
+                    and _const_value(n.value):
+                self.consts[n.targets[0].id] = n.value
+        for f in self.funcs.values():
+            f._modconsts = self.consts
 
     def _top(self, n):
         if isinstance(n, ast.FunctionDef):
